@@ -45,6 +45,7 @@ STREAMS["manifest"] = {
     "selftest": {"good": 'Case (s2l "/bundle") (mkManifest 1 [mkMPackage (s2l "git::https://example.com/r.git") (s2l "d") [] []] []) true (Some (mkOpened [(s2l "git::https://example.com/r.git", s2l "/bundle/d", [], [])] [])) [QReverse (s2l "/bundle/d/x") (Some (s2l "git::https://example.com/r.git", s2l "x"))]',
                  "bad": 'Case (s2l "/bundle") (mkManifest 1 [mkMPackage (s2l "git::https://example.com/r.git") (s2l "d") [] []] []) true (Some (mkOpened [(s2l "git::https://example.com/r.git", s2l "/bundle/d", [], [])] [])) [QReverse (s2l "/bundle/e/x") (Some (s2l "git::https://example.com/r.git", s2l "x"))]'},
 }
+STREAMS["reopen"] = {"name": "reopen", "corr": "Corr.RunManifest"}
 STREAMS["unpack"] = {"name": "unpack", "corr": "Corr.RunUnpack"}
 _FS_ASSUME = [
     "modelled, not verified: the kernel's path resolution and lstat/stat/mkdir/open(O_CREAT|O_TRUNC)/symlink/chmod/utimensat, Go's os.MkdirAll, filepath.Join/Clean/Rel/Dir on clean absolute paths (FS/FS.v, Slug/Unpack.v); validated on every run: each case executes the real Unpack in a chrooted child whose root is the model's root, and the whole final tree is compared",
@@ -149,6 +150,11 @@ PROPS = {
         "streams": ["manifest"],
         "theorems": "C18_opened_bundle_directories, C18_bad_directory_refused (every manifest document), C18_remote_lookup_inside, C18_registry_lookup_inside (every address), C18_reverse_inverts_forward, C18_reverse_only_inside, C18_outside_not_in_bundle (every path, every set of aliases sharing a directory)",
         "assumptions": _ADDR_ASSUME + ["modelled, not verified: encoding/json decoding of the manifest (the model starts at the decoded document; raw JSON mutations are run against the implementation with the direct oracle only), os.ReadFile, filepath.Abs/Rel/Join/Clean on absolute Unix paths (Bundle/Lookup.v comps / join3, on Base/PathAlg.v), Go map iteration order (the reverse lookup's choice among equally short aliases is compared as membership in the model's candidate set); two manifest version keys that parse to the same version are not generated for the model (map-order dependent)"],
+    },
+    "C09": {
+        "streams": ["reopen", "manifest", "pack", "unpack"],
+        "theorems": "C09_reopen_is_a_function_of_the_manifest, C09_root_independent (accessors of open_dir do not depend on the root; forward lookups are the root followed by the same relative components; reverse lookups of corresponding paths agree), C09_reverse_choice_is_deterministic; the archive leg composes C02 (pack/unpack round trip: PARTIAL there) with these",
+        "assumptions": _ADDR_ASSUME + _PACK_ASSUME + ["modelled, not verified: encoding/json (MarshalIndent / Unmarshal of the manifest), crypto/sha256 (checksum compared on the implementation only), dirhash; partial: 'the same files after WriteArchive + ExtractArchive' rests on C02's round trip, which is proved piecewise and decided per run by packing, extracting and comparing the trees of real bundles; file times are compared to the archive's one-second resolution"],
     },
     "C11": {
         "streams": ["resolve"],
